@@ -460,6 +460,31 @@ pub fn run(ctx: &Ctx, replay: Option<&J>) -> CheckResult {
         ev.merge(e);
         vs.extend(v);
     }
+    // the whole table on the wire at once: an MSM frame whose signal mask has every recognised position of the
+    // constellation set (1..3 satellites, all MSM levels) must decode to the table's descriptors in position order
+    // (one-cell messages cannot see a decoder that handles only the first k signals of a mask)
+    for cons in crate::msm::ALL_CONS {
+        let ng = cons.table().len();
+        for level in 1..=7u8 {
+            for ns in 1..=(64 / ng).min(3) {
+                let mut rng = ctx.rng("c18-full-table", (cons.base() as u64) * 100 + level as u64 * 10 + ns as u64);
+                let spec = crate::msm::spec_with_shape(&mut rng, cons, level, ns, ng);
+                ev.eval();
+                match crate::checks::c10::oracle_spec(&spec, rng.next_u64()) {
+                    Ok(_) => {
+                        ev.distinct_by_construction += 1;
+                        ev.class("wire/all-recognised-signals-in-one-mask");
+                    }
+                    Err((sig, msg)) => {
+                        let sig = format!("c18:{}:full-table-on-the-wire({})", cons.name(), sig);
+                        if !vs.iter().any(|v| v.signature == sig) {
+                            vs.push(Violation { property: "C18".into(), signature: sig, message: format!("{} MSM{} with all {} recognised signals and {} satellite(s): {}", cons.name(), level, ng, ns, msg), case: crate::checks::c10::spec_json(&spec, 0) });
+                        }
+                    }
+                }
+            }
+        }
+    }
     ev.notes.push("order class counters are sampled (1 in 64)".into());
     ev.exhaustive = Some(true);
     ev.extra.insert("exhaustive_subdomain".into(), json!("membership over 7 x 256 bands x 256 Latin-1 attributes; all triples of recognised descriptors; other characters and mixed triples sampled"));
